@@ -125,7 +125,8 @@ static Opts base_opts(Rng& rng, int nr_exp)
     o.set("beta_coeff", rng.range(0, 1));
     { double Rmax = rng.pick(std::vector<double>{1.3, 1.3, 1.3, 1.0, 2.0}); o.set("Rmax", Rmax); o.set("alpha_jump", 0.7081 * Rmax); }
     o.set("DirBC_Interior", rng.range(0, 1));
-    o.set("R0", rng.coin() ? 1e-5 : 1e-2);
+    // disc-like domains and genuine annuli (on an annulus the automatic circle / radial splits of neighbouring levels need not nest)
+    o.set("R0", rng.pick(std::vector<double>{1e-5, 1e-2, 1e-5, 1e-2, 0.13, 0.3}));
     o.set("stencilDistributionMethod", rng.range(0, 1));
     o.set("cacheDensityProfileCoefficients", 1);
     o.set("cacheDomainGeometry", 1);
